@@ -167,11 +167,14 @@ func (c *Conn) AsyncRead() {
 	// be re-dispatched before this reading event has been handled and set again.
 	if g.isOneshot {
 		g.IOExecute(func(pbuf *[]byte) {
+			bufLen := len(*pbuf)
 			for i := 0; i < g.MaxConnReadTimesPerEventLoop; i++ {
 				rc, n, err := c.ReadAndGetConn(pbuf)
 				if n > 0 {
 					*pbuf = (*pbuf)[:n]
 					g.onDataPtr(rc, pbuf)
+					// restore the buffer for the next read.
+					*pbuf = (*pbuf)[:bufLen]
 				}
 				if errors.Is(err, syscall.EINTR) {
 					continue
@@ -205,6 +208,7 @@ func (c *Conn) AsyncRead() {
 	}
 
 	g.IOExecute(func(pBuf *[]byte) {
+		bufLen := len(*pBuf)
 		for {
 			// try to read all the data available.
 			for i := 0; i < g.MaxConnReadTimesPerEventLoop; i++ {
@@ -212,6 +216,8 @@ func (c *Conn) AsyncRead() {
 				if n > 0 {
 					*pBuf = (*pBuf)[:n]
 					g.onDataPtr(rc, pBuf)
+					// restore the buffer for the next read.
+					*pBuf = (*pBuf)[:bufLen]
 				}
 				if errors.Is(err, syscall.EINTR) {
 					continue
